@@ -315,13 +315,10 @@ class Check:
     def finish(self):
         # an undischarged obligation with no concrete failing input is still a violation
         failed = self.failed_obligations()
-        if failed and not self.violations and not self.known_hits:
+        if failed and not self.violations:
             self.violations.append({'signature': 'obligation-broken', 'what': 'proof obligation / correspondence no longer checks',
                                     'replay': {'broken': [{'obligation': n, 'detail': d} for n, d in failed]},
                                     'found_input': False})
-        elif failed and not self.violations and self.known_hits:
-            # obligations that fail only because of a listed finding are reported as known
-            pass
         wall = time.time() - self.t0
         nobl = len(self.obligations)
         ndis = sum(1 for _, ok, _ in self.obligations if ok)
